@@ -28,7 +28,7 @@ ASSUMPTIONS = ["binary labels", "predictions in [0,1] for parity moments", "even
 
 def cases(tier, seed):
     k = 900 if tier == "quick" else 36000
-    return [("parity", i) for i in range(k)] + [("loss", i) for i in range(k // 3)]
+    return [("parity", i) for i in range(k)] + [("loss", i) for i in range(k // 3)] + [("reload", i) for i in range(k // 4)]
 
 
 def run_case(cls, key, seed, ctx):
@@ -37,18 +37,28 @@ def run_case(cls, key, seed, ctx):
         return run_loss(ctx, rng)
     kind = RM.PARITY[int(rng.integers(0, 5))]
     bound = ML.BOUNDS[int(rng.integers(0, len(ML.BOUNDS)))]
-    ds = ML.make_dataset(rng)
     moment, ratio, eps = ML.make_moment(kind, bound)
+    if cls == "reload":
+        # the same moment object is loaded with other data first (what a refit / clone-then-fit of a reduction does)
+        ds0 = ML.make_dataset(rng)
+        X0, y0, g0, c0 = ML.wrap_inputs(rng, ds0)
+        ML.load(moment, X0, y0, g0, c0)
+        moment.gamma(ML.FixedPredictor(rng.random(ds0.n)))
+        moment.signed_weights(pd.Series(1.0, index=moment.index))
+        same_n = rng.random() < 0.6
+        ds = ML.make_dataset(rng, nmin=ds0.n if same_n else 4, nmax=ds0.n if same_n else 40, control=(ds0.c is not None) if same_n else None)
+    else:
+        ds = ML.make_dataset(rng)
     X, y, g, c = ML.wrap_inputs(rng, ds)
     ML.load(moment, X, y, g, c)
     ref_entries = RM.entries(kind, ds.y, ds.g, ds.c)
     pairs = sorted({(repr(e), repr(a)) for (_, e, a) in ref_entries})
     n_events = len({e for (_, e, _) in ref_entries})
     full = len(pairs) == n_events * len(set(ds.g))
-    ctx.mark([kind, list(bound), ds.n, len(set(ds.g)), None if ds.c is None else len(set(ds.c)), len(pairs), full],
+    ctx.mark([cls, kind, list(bound), ds.n, len(set(ds.g)), None if ds.c is None else len(set(ds.c)), len(pairs), full],
              any(sum(1 for p in pairs if p[0] == ev) >= 2 for ev in {p[0] for p in pairs}),
              sample={"moment": kind, "bound": list(bound), "y": ds.y, "groups": ds.g, "control": ds.c})
-    wit = {"moment": kind, "bound": list(bound), "y": ds.y, "groups": ds.g, "control": ds.c,
+    wit = {"moment": kind, "bound": list(bound), "y": ds.y, "groups": ds.g, "control": ds.c, "loaded_before": cls == "reload",
            "containers": [type(X).__name__, type(y).__name__, type(g).__name__, type(c).__name__]}
     mapping, problems = ML.align_index(moment, kind, ds, ratio, rng)
     ctx.ev("index_alignments")
